@@ -108,6 +108,40 @@ def handle (cmd : String) (args : List String) : Option String :=
         | .ok (.device v) => s!"D {devStr v}"
         | .ok (.varIdx o i) => s!"V {o} {i}"
       some s!"{a} | {b}"
+  | "hl.slist", hex :: rest =>
+    -- `rest` = tags for `index_for_tag` | tags for `select`
+    match parseHex? hex with
+    | none => none
+    | some d =>
+      let (a, b) := splitBar rest
+      match natsOrEmpty a, natsOrEmpty b with
+      | some ts, some sel =>
+        match scriptListRead d with
+        | .error e => some (errStr e)
+        | .ok recs =>
+          let tags := recs.map (·.1)
+          let ix := ts.map (fun t => match indexForTag tags t with | some i => toString i | none => "n")
+          let s := match select tags sel with
+            | some (t, i, fb) => s!"{t} {i} {if fb then 1 else 0}"
+            | none => "n"
+          some s!"{recs.length} | {joinStrs ix} | {s}"
+      | _, _ => none
+  | "hl.script", hex :: ts =>
+    match parseHex? hex, natsOrEmpty ts with
+    | some d, some ts =>
+      match scriptRead d with
+      | .error e => some (errStr e)
+      | .ok recs =>
+        let tags := recs.map (·.1)
+        some s!"{recs.length} | {joinStrs (ts.map (fun t => match indexForTag tags t with | some i => toString i | none => "n"))}"
+    | _, _ => none
+  | "hl.stags", tags =>
+    match natsOrEmpty tags with
+    | none => none
+    | some ts =>
+      some (joinStrs (ts.map (fun u => match scriptTagsFromUnicode u with
+        | .trap => "trap"
+        | .val xs => ",".intercalate (xs.map toString))))
   | _, _ => none
 
 end FontVerif.Drv.C01HandLayout
